@@ -12,7 +12,8 @@ Inductive tls_mode := TNone | TOpportunistic | TRequired | TWrapper.
 Record tparams := mkTp { add_root : bool; accept_invalid_certs : bool; accept_invalid_hostnames : bool }.
 (* what the peer presents when asked to speak TLS *)
 Inductive cert := CGood | CWrongName | CSelfSigned | CExpired.
-Inductive peer_tls := PCert (c : cert) | PNoTls.
+(* PSilent: the peer accepts the connection (or answers 220 to STARTTLS) and then says nothing during the handshake *)
+Inductive peer_tls := PCert (c : cert) | PNoTls | PSilent.
 
 (* native-tls: chain to a trusted root (here: only the added root), validity period, host name *)
 Definition cert_ok (c : cert) (p : tparams) : bool :=
@@ -23,10 +24,13 @@ Definition cert_ok (c : cert) (p : tparams) : bool :=
   | CExpired => accept_invalid_certs p
   end.
 Definition handshake (pt : peer_tls) (p : tparams) : bool :=
-  match pt with PCert c => cert_ok c p | PNoTls => false end.
+  match pt with PCert c => cert_ok c p | PNoTls => false | PSilent => false end.
 
 Definition STARTTLS_LINE : bytes := bs "STARTTLS" ++ CRLF.
 Definition e_conn : error := mkErr EConnection None [] false.
+(* a refused handshake is a connection error; one that got no answer within the timeout is flagged as a timeout (F43, F44) *)
+Definition hs_err (pt : peer_tls) : error :=
+  match pt with PSilent => mkErr EConnection None [] true | _ => e_conn end.
 
 (* the channel after the handshake: nothing buffered is carried over, capabilities start from scratch, the
    log of written units starts anew (these are the units written inside TLS) *)
@@ -52,7 +56,7 @@ Definition starttls (hello : bytes) (pt : peer_tls) (p : tparams) (s : cst) : re
         match ehlo hello (fresh_session s1) with
         | (r, s3) => (r, mkT (ulog s1) s3 true)
         end
-      else (Err e_conn, mkT (ulog s1) s1 false)
+      else (Err (hs_err pt), mkT (ulog s1) s1 false)
     | (Err e, s1) => (Err e, mkT (ulog s1) s1 false)
     | (Panic, s1) => (Panic, mkT (ulog s1) s1 false)
     end
@@ -84,7 +88,7 @@ Definition connection (mode : tls_mode) (hello : bytes) (pt : peer_tls) (p : tpa
       match connect hello sc with
       | (r, s) => authenticate c (r, mkT [] s true)
       end
-    else (Err e_conn, mkT [] (mkSt [] false false sc false info_default []) false)
+    else (Err (hs_err pt), mkT [] (mkSt [] false false sc false info_default []) false)
   | _ =>
     match connect hello sc with
     | (Ok _, s) =>
